@@ -58,6 +58,7 @@ def check(run):
     n = lazy.check_no_overwrite(run, P)
     run.floor("F-LAZY/no-overwrite", n, 25)
     lazy.check_private_attrs_initialised(run, P)
+    run.floor("F-LAZY/single-deriver", lazy.check_single_deriver(run, P), 3)
     njit.check_identity_comparisons(run, P)
     # the cached tree wrapper is switched between element kinds through its `coordinates` setter: the k-bound must follow
     from .c11 import _element_count_follows_kind
